@@ -165,6 +165,10 @@ func DetDriver(r *rand.Rand, n int) [][]Action {
 			for k := 0; k < 2+r.Intn(5); k++ {
 				m[[]string{"json", "xml", "db", "JSON", "form", "Json", "toml"}[k]] = "v" + strconv.Itoa(r.Intn(100)) // keys that differ only by case
 			}
+			if r.Intn(3) == 0 {
+				// keys that differ only by surrounding white space (unconventional, but one construction must still give one output)
+				m["json "], m[" json"], m["\tjson"] = "w1", "w2", "w3"
+			}
 			fields = append(fields, stm(idn("F"+strconv.Itoa(j)), idn("int"), tagNode(m)))
 		}
 		h = append(h, Action{A: "Add", Tree: stm(kwn("type"), idn("S"), grp("struct", fields...))})
